@@ -208,6 +208,26 @@ theorem converge_text (ps : List (List Char × Doc)) (h : ∀ p ∈ ps, Reads p.
     have := (fromSources_reads (ps ++ List.replicate (k + 1) p) (hall (k + 1)) sk).2 (by rw [e2]; exact h3 hk)
     rwa [e1] at this
 
+/-- **C09 on texts, any re-feeding order**: after the source texts `ps`, feeding any sequence `rs` of
+texts that are already among the sources (any order, any multiplicity, interleaved) succeeds and keeps
+the meaning of the shape -/
+theorem readd_any_text (ps rs : List (List Char × Doc)) (h : ∀ p ∈ ps, Reads p.1 p.2)
+    (hr : ∀ p ∈ rs, p ∈ ps) (a : Shape) (ha : fromSources (ps.map (·.1)) = .ok a) :
+    ∃ s, fromSources (ps.map (·.1) ++ rs.map (·.1)) = .ok s ∧ meaningEq s a := by
+  have hdoc := (fromSources_reads ps h a).1 ha
+  obtain ⟨s, h1, h2⟩ := readd_any (rs.map (·.2)) (ps.map (·.2)) a hdoc (by
+    intro d hd
+    obtain ⟨q, hq, rfl⟩ := List.mem_map.1 hd
+    exact List.mem_map.2 ⟨q, hr q hq, rfl⟩)
+  have hall : ∀ q ∈ ps ++ rs, Reads q.1 q.2 := by
+    intro q hq
+    rcases List.mem_append.1 hq with hq | hq
+    · exact h q hq
+    · exact h q (hr q hq)
+  refine ⟨s, ?_, h2⟩
+  have := (fromSources_reads (ps ++ rs) hall s).2 (by simpa using h1)
+  simpa using this
+
 /-- **C06 on texts**: for a JSON text whose document has no repeated member names, the shape
 `from_str` infers is the shape the value path infers from the text's value (`d.toSVal`: members sorted
 by name — the model of what `serde_json::from_str::<Value>` returns for the text, compared with the
